@@ -78,8 +78,10 @@ def gen_tr(rng, kind, aid, malformed):
 
 def gen_queries(rng, n):
     qs = []
+    # aborting pairs cost ~0.3 s each (xbt_die resolves a backtrace): about 100 of them whatever the tier
+    mal_den = max(33, n // 100)
     for i in range(n):
-        malformed = rng.chance(3, 100)
+        malformed = rng.chance(1, mal_den)
         c = rng.below(10)
         if malformed and rng.chance(1, 2):
             k1 = rng.choice(NOMC)
@@ -229,7 +231,7 @@ def run_commtest_witness(ctx):
 def run(ctx):
     ctx.cov["rule"] = ("pairs of synthetic transitions drawn from splitmix64(VERIF_SEED): 60% inside one dependency group "
                        "(mutex / sem / barrier / comm incl. TESTANY,WAITANY / condvar+mutex / actor), 40% any two kinds, "
-                       "small id domains so that the equality arms take both outcomes, 3% malformed (NOMC kinds, ANY index "
+                       "small id domains so that the equality arms take both outcomes, about 100 malformed pairs (NOMC kinds, ANY index "
                        "out of range); each pair is evaluated in both directions on the real dispatch_depends. "
                        "non-trivial = distinct query with different actors that does not abort")
     ctx.assumptions += [
